@@ -235,6 +235,9 @@ def split_delay_tags(series, hed_schema, onsets):
                 # No conversion to seconds (e.g. months, years, an unknown unit) or no onset: the group stays in its row.
                 continue
             onset_mod = delay + onset
+            if math.isnan(onset_mod):
+                # inf - inf (an infinite onset and a Delay that overflows the other way): no time, the group stays in its row.
+                continue
             to_remove.append(group)
             insert_index = split_df['original_index'].index.max() + 1
             split_df.loc[insert_index] = {'HED': str(group), 'onset': onset_mod, 'original_index': i}
